@@ -67,7 +67,7 @@ class C12(Prop):
                    'every rank of a stage is given the same cost dictionary (they hold the same layers)']
     exhaustive = True
     examples = {'quick': 60, 'thorough': 600}
-    shards = {'quick': 4, 'thorough': 16}
+    shards = {'quick': 8, 'thorough': 16}
     enum_shards = {'quick': 4, 'thorough': 16}
     required_labels = {'quick': ['kind=enum', 'kind=gen', 'nontrivial=True', 'all3=True'], 'thorough': ['kind=enum', 'kind=gen', 'nontrivial=True', 'all3=True']}
 
